@@ -282,7 +282,12 @@ func (lb *LoadBalancer) setupCircuitBreaker(cfg *config.Config) {
 
 func (lb *LoadBalancer) startHealthChecks() {
 	if lb.healthChecks.activeEnabled {
-		go lb.startActiveHealthChecks()
+		// Track the probing loop itself so Stop can join it before waiting for probes
+		lb.healthCheckWg.Add(1)
+		go func() {
+			defer lb.healthCheckWg.Done()
+			lb.startActiveHealthChecks()
+		}()
 		logging.L().Info().Dur("interval", lb.healthChecks.activeInterval).Msg("active health checks enabled")
 	} else {
 		logging.L().Info().Msg("active health checks disabled")
@@ -310,7 +315,6 @@ func (lb *LoadBalancer) startActiveHealthChecks() {
 		select {
 		case <-lb.ctx.Done():
 			logging.L().Info().Msg("stopping active health checks")
-			lb.healthCheckWg.Wait()
 			return
 		case <-ticker.C:
 			lb.checkBackendsHealth()
